@@ -37,7 +37,7 @@ def make_case(rng, special=None):
         if special == "corner":
             # fully periodic grid with unequal cell counts; the droplet sits around a corner of the box
             per = [True] * dim
-            while len(set(n)) < dim:
+            while len(set(n)) < dim or (dim == 2 and abs(n[0] - n[1]) < 8):
                 n = [rng.randint(24, 44) for _ in range(dim)] if dim == 2 else [rng.randint(16, 22) for _ in range(3)]
         elif special == "mixed":
             # a non-periodic axis FOLLOWED by a periodic one; the droplet crosses the boundary of the later periodic axis
@@ -52,6 +52,7 @@ def make_case(rng, special=None):
             w = rng.uniform(1.0, 2.0) * hmax
             c = []
             ok = True
+            corner_hi = rng.random() < 0.7
             for a in range(dim):
                 L = n[a] * h[a]
                 if grid.periodic[a]:
@@ -59,9 +60,13 @@ def make_case(rng, special=None):
                         ok = False
                     if special is not None and not drops:
                         # around the boundary (inside or outside the box), the boundary point itself not necessarily covered
-                        # (corner: mostly with the corner point itself NOT covered, i.e. three pieces)
-                        f = rng.uniform(0.72, 0.97) if (special == "corner" and rng.random() < 0.7) else rng.uniform(0.3, 0.98)
-                        c.append(rng.choice([lo[a], lo[a] + L]) + rng.choice([-1, 1]) * f * R)
+                        if special == "corner" and corner_hi:
+                            # centre in the high/high quadrant next to the corner (given inside the box or by its periodic image
+                            # below the low corner): the main piece is the upper cluster of both boundary merges, so the second
+                            # merge has to use the shift recorded by the first one
+                            c.append(rng.choice([lo[a], lo[a] + L]) - rng.uniform(0.45, 0.88) * R)
+                        else:
+                            c.append(rng.choice([lo[a], lo[a] + L]) + rng.choice([-1, 1]) * rng.uniform(0.3, 0.98) * R)
                     elif rng.random() < 0.35:
                         c.append(rng.choice([lo[a], lo[a] + L]) + rng.uniform(-1, 1) * R)
                     else:
